@@ -27,6 +27,8 @@ def check_term(chk, rule: str, inst: str, where: str, found: Any, accepted: List
     if T.has_opaque(found):
         return chk.ob(rule, inst, None, where, found=T.show(found)[:400], why="; ".join(T.opaque_reasons(found))[:300], key=key)
     ok = found in accepted
+    if not ok and T.strip_casts(found) in [T.strip_casts(a) for a in accepted]:
+        ok = True          # law: a cast to a full-width numeric type (int64 / float64) keeps every value; a narrowing cast stays a difference
     if not ok:
         extra = _uninterpreted(found) - set().union(*[_uninterpreted(a) for a in accepted]) if accepted else _uninterpreted(found)
         if extra:   # the slot is computed through a library function the evaluator has no model for: not understood, not a violation
